@@ -126,6 +126,12 @@ func drawRound(r *sim.Rng, se *Session, g *sim.Gen, tier string) *sim.ParRound {
 			if r.Chance(0.1) {
 				sc = append(sc, sim.ParStep{K: "gc"})
 			}
+			if !writeRound && nG >= 8 && r.Chance(0.25) {
+				// further queries of the same filter that stay open until the script ends: with
+				// many goroutines the limit of 64 open queries is reached; an attempt beyond it
+				// must be rejected with the documented panic while others keep opening and closing
+				sc = append(sc, sim.ParStep{K: "burst", N: r.Range(2, 12)})
+			}
 			switch r.Intn(4) {
 			case 0:
 				sc = append(sc, sim.ParStep{K: "next", N: r.Range(1, 6), Wr: wr}, sim.ParStep{K: "close"})
